@@ -268,7 +268,7 @@ def same(a, b, path="", known_value_ok=None) -> t.Optional[str]:
                 return d
         return None
     if ka == "dict":
-        if list(a.keys()) != list(b.keys()):
+        if set(a.keys()) != set(b.keys()) or len(a) != len(b):
             return f"{path}: keys differ"
         for k in a:
             d = same(a[k], b[k], f"{path}[{k!r}]", known_value_ok)
@@ -281,3 +281,14 @@ def same(a, b, path="", known_value_ok=None) -> t.Optional[str]:
         sa, sb = repr(a), repr(b)
         return f"{path}: {sa[:60]} != {sb[:60]}"
     return None
+
+
+def differs(a, b) -> bool:
+    """True when a and b are not the same value: the library's own == says so, or a field-by-field walk over the public
+    dataclass fields finds a difference (so an over-lenient __eq__ cannot hide one, and an over-strict one is noticed)."""
+    if bool(a != b) or not bool(a == b):  # exceptions propagate exactly as a plain comparison's would
+        return True
+    try:
+        return same(a, b) is not None
+    except RecursionError:  # the walk needs more frames per level than ==: for very deep trees == alone decides
+        return False
